@@ -33,6 +33,10 @@ CHECKS={
    "TLA+ Engine.tla (JumpToStage) + TLC + trace validation","DESIGN.md 7 C15"),
  "C17": eng("C17","A cancel request is injected before every delivery step of every program (remaining messages in order and shuffled, the cancel itself may be overtaken); executions validated by TLC with C17_NoStartAfterCancel / C17_CancelCompletes; TLC explores SendCancel at every point of the model.",
    "TLA+ Engine.tla + TLC + trace validation with enumerated cancel injection","DESIGN.md 7 C17"),
+ "C11": eng("C11","C11_Mutex (never two RUNNING stages per mutex key, in every state), C11_ChoiceAtMostOne / C11_ChoiceLosersCanceled, waiter liveness at quiescence and C11_ClaimsOfLiveKept (retention sweep at arbitrary points) checked by TLC on Engine.tla (claim rows acquired in the claim transaction, steal only from a terminal owner) over every delivery order, and on TLC-validated executions of the real engine (random schedules with retention sweeps and duplicate StartStage, every crash point with early and late lock expiry). The statement-level two-worker race on the claim row is covered by the Race spec (check C04 machinery) - see level_note.",
+   "TLA+ Engine.tla (stage_claims) + TLC + trace validation","DESIGN.md 7 C11"),
+ "C18": eng("C18","Signals: TLC explores SendSignal (persistent / transient) at every point of the model incl. between the commits of a handler and across a crash (C18_StaysSuspended, C18_NeverLost: sent = consumed + buffered + pending in every state, C18_NotSittingOnSignal, C18_ResumeOncePerSignal, C18_TransientNoEffect); on the real engine a signal is sent before every delivery step (in order and shuffled, one and two signals) and the process is killed at every commit of the suspend / resume steps; every execution validated by TLC.",
+   "TLA+ Engine.tla (SignalStage, suspend/resume) + TLC + trace validation with enumerated signal times and crash points","DESIGN.md 7 C18"),
 }
 EXTRA=json.load(open(os.path.join(ROOT,"manifest_extra.json"))) if os.path.exists(os.path.join(ROOT,"manifest_extra.json")) else {}
 CHECKS.update(EXTRA.get("checks",{}))
